@@ -10,6 +10,7 @@ package h_c42
 
 import (
 	"fmt"
+	"os"
 	"sort"
 	"strings"
 	"testing"
@@ -58,18 +59,33 @@ var c42Scenarios = []*c42Scenario{
 		Alpha:  []string{"W1", "W2", "W3", "R0:1:a1", "R0:1:a2", "R0:1:aX", "R0:1:b1", "E0", "L"},
 		DepthQ: 5, DepthT: 7, Props: []string{"C42", "C43"},
 	},
+	// Multi-server scenarios. The "-strict" ones enumerate everything and keep
+	// reporting the two places where the unchanged client leaves the statement
+	// (D2, D3 in claims.json); their depth is the same in both tiers so that the
+	// violation keys are tier-independent. The others prune exactly the trigger
+	// events of D2/D3 and go deeper.
+	{
+		Name: "fallback2-strict", NServers: 2, Slow: -1, Watchers: c42WSame, Dt: time.Second,
+		Alpha:  []string{"W1", "W3", "C0", "C1", "E0", "E1", "R0:1:a1b1", "R1:1:a1b1", "R0:1:a2", "A"},
+		DepthQ: 4, DepthT: 4, Props: []string{"C44"},
+	},
+	{
+		Name: "fallback3-strict", NServers: 3, Slow: -1, Watchers: c42WSame, Dt: time.Second,
+		Alpha:  []string{"W1", "C0", "C1", "C2", "E0", "E1", "E2", "R0:1:a1", "R1:1:a1", "R2:1:a1", "A"},
+		DepthQ: 4, DepthT: 4, Props: []string{"C44"},
+	},
 	{ // fallback, two servers
-		Name: "fallback2", NServers: 2, Slow: -1, Watchers: c42WSame, Dt: time.Second,
+		Name: "fallback2", NServers: 2, Slow: -1, Watchers: c42WSame, Dt: time.Second, AvoidKnown: true,
 		Alpha:  []string{"W1", "W3", "C0", "C1", "E0", "E1", "R0:1:a1b1", "R1:1:a1b1", "R0:1:a2", "A"},
 		DepthQ: 5, DepthT: 7, Props: []string{"C44"},
 	},
 	{ // fallback, three servers, one resource
-		Name: "fallback3", NServers: 3, Slow: -1, Watchers: c42WSame, Dt: time.Second,
+		Name: "fallback3", NServers: 3, Slow: -1, Watchers: c42WSame, Dt: time.Second, AvoidKnown: true,
 		Alpha:  []string{"W1", "C0", "C1", "C2", "E0", "E1", "E2", "R0:1:a1", "R1:1:a1", "R2:1:a1", "A"},
 		DepthQ: 5, DepthT: 7, Props: []string{"C44"},
 	},
 	{ // fallback, three servers, starting with the primary unreachable
-		Name: "fallback3-down", NServers: 3, Slow: -1, Watchers: c42WSame, Dt: time.Second,
+		Name: "fallback3-down", NServers: 3, Slow: -1, Watchers: c42WSame, Dt: time.Second, AvoidKnown: true,
 		Prefix: []string{"C0", "W1"},
 		Alpha:  []string{"W1", "W3", "C0", "C1", "E1", "E2", "R0:1:a1b1", "R1:1:a1b1", "R2:1:a1b1", "A"},
 		DepthQ: 4, DepthT: 6, Props: []string{"C44"},
@@ -150,6 +166,58 @@ func c42Compare(sc *c42Scenario, ev c42Ev, exp *c42Exp, obs *c42Obs) (fails []c4
 	}
 	evk := string(ev.K)
 
+	// -- C44: channels created / released per server --
+	for s := 0; s < c42NS; s++ {
+		var eb, ob, en, on []string
+		for _, x := range exp.Tlog[s] {
+			if x == "B" || x == "X" {
+				eb = append(eb, x)
+			} else {
+				en = append(en, x)
+			}
+		}
+		for _, x := range obs.Tlog[s] {
+			if x == "B" || x == "X" {
+				ob = append(ob, x)
+			} else {
+				on = append(on, x)
+			}
+		}
+		if !c42EqStrs(eb, ob) {
+			class := "channel-lifecycle/" + evk
+			switch {
+			case len(ob) > len(eb) && ob[len(ob)-1] == "B":
+				class = "unexpected-channel-created/" + evk
+			case len(ob) < len(eb) && eb[len(eb)-1] == "B":
+				class = "channel-not-created/" + evk
+			case len(ob) < len(eb) && eb[len(eb)-1] == "X":
+				class = "channel-not-released/" + evk
+			case len(ob) > len(eb) && ob[len(ob)-1] == "X":
+				class = "unexpected-channel-released/" + evk
+			}
+			add("C44", class, "server S%d: expected transport Build/Close %v, saw %v (full log expected %v saw %v)", s, eb, ob, exp.Tlog[s], obs.Tlog[s])
+		} else if !c42EqStrs(en, on) {
+			// stream (re)establishment pacing is not part of C42-C44; a
+			// difference means the model's idea of when the client dials is off
+			add("ENGINE", "stream-attempts/"+evk, "server S%d: expected stream attempts %v, saw %v", s, en, on)
+		}
+	}
+	// flow control
+	ck := map[[2]int]bool{}
+	for k := range exp.Consumed {
+		ck[k] = true
+	}
+	for k := range obs.Consumed {
+		ck[k] = true
+	}
+	for k := range ck {
+		e, o := exp.Consumed[k], obs.Consumed[k]
+		if o > e {
+			add("C42", "read-before-onDone/"+evk, "stream S%d#%d: %d message(s) were read, only %d may be (watchers still hold onDone of the previous response)", k[0], k[1], o, e)
+		} else if o < e {
+			add("C42", "read-stalled/"+evk, "stream S%d#%d: %d message(s) were read, %d are due (every onDone was called)", k[0], k[1], o, e)
+		}
+	}
 	// -- C42: requests per (server, stream, type) --
 	byKey := map[c42SK][]c42Req{}
 	var order []c42SK
@@ -221,6 +289,9 @@ func c42Compare(sc *c42Scenario, ev c42Ev, exp *c42Exp, obs *c42Obs) (fails []c4
 				}
 				if !c42EqStrs(q.Names, a.Names) {
 					add("C42", kind+"-names/"+evk, "%s: %s must list the subscribed names %v, saw %v", where, kind, a.Names, q)
+					if c42HasStale(q.Names, [][]string{a.Names}) {
+						add("C43", "unwatched-name-still-requested/"+evk, "%s: request lists a name nobody watches any more: want %v, saw %v", where, a.Names, q)
+					}
 				}
 			}
 			continue
@@ -243,6 +314,9 @@ func c42Compare(sc *c42Scenario, ev c42Ev, exp *c42Exp, obs *c42Obs) (fails []c4
 			}
 			if j == len(g.Snaps) {
 				add("C42", "request-names/"+evk, "%s: names %v equal no subscription set of this step %v (in order)", where, q.Names, g.Snaps)
+				if c42HasStale(q.Names, g.Snaps) {
+					add("C43", "unwatched-name-still-requested/"+evk, "%s: request lists a name nobody watches any more: sets of this step %v, saw %v", where, g.Snaps, q)
+				}
 			} else {
 				idx = j
 			}
@@ -250,22 +324,9 @@ func c42Compare(sc *c42Scenario, ev c42Ev, exp *c42Exp, obs *c42Obs) (fails []c4
 		must := !g.Closing && ((g.NewStream && len(final) > 0) || (!g.NewStream && len(g.Snaps) > 1))
 		if must && (len(qs) == 0 || !c42EqStrs(qs[len(qs)-1].Names, final)) {
 			add("C42", "request-names-final/"+evk, "%s: at quiescence the last request must list %v (sets of this step: %v), saw %v", where, final, g.Snaps, qs)
-		}
-	}
-	// flow control
-	ck := map[[2]int]bool{}
-	for k := range exp.Consumed {
-		ck[k] = true
-	}
-	for k := range obs.Consumed {
-		ck[k] = true
-	}
-	for k := range ck {
-		e, o := exp.Consumed[k], obs.Consumed[k]
-		if o > e {
-			add("C42", "read-before-onDone/"+evk, "stream S%d#%d: %d message(s) were read, only %d may be (watchers still hold onDone of the previous response)", k[0], k[1], o, e)
-		} else if o < e {
-			add("C42", "read-stalled/"+evk, "stream S%d#%d: %d message(s) were read, %d are due (every onDone was called)", k[0], k[1], o, e)
+			if len(g.Snaps) > 1 && len(final) < len(g.Snaps[0]) {
+				add("C43", "name-not-unsubscribed-after-last-unwatch/"+evk, "%s: the last watcher of a name was removed; the next request must list %v (sets of this step: %v), saw %v", where, final, g.Snaps, qs)
+			}
 		}
 	}
 	for _, s := range obs.Misc {
@@ -281,50 +342,68 @@ func c42Compare(sc *c42Scenario, ev c42Ev, exp *c42Exp, obs *c42Obs) (fails []c4
 		}
 		if w == sc.Slow {
 			for i, e := range exp.Cbs[w] {
-				if e.Opt && !matched[i] {
+				if e.Opt && e.Gate && !matched[i] {
 					undetermined = true
 				}
 			}
 		}
 	}
 
-	// -- C44: channels created / released per server --
-	for s := 0; s < c42NS; s++ {
-		var eb, ob, en, on []string
-		for _, x := range exp.Tlog[s] {
-			if x == "B" || x == "X" {
-				eb = append(eb, x)
-			} else {
-				en = append(en, x)
-			}
-		}
-		for _, x := range obs.Tlog[s] {
-			if x == "B" || x == "X" {
-				ob = append(ob, x)
-			} else {
-				on = append(on, x)
-			}
-		}
-		if !c42EqStrs(eb, ob) {
-			class := "channel-lifecycle/" + evk
-			switch {
-			case len(ob) > len(eb) && ob[len(ob)-1] == "B":
-				class = "unexpected-channel-created/" + evk
-			case len(ob) < len(eb) && eb[len(eb)-1] == "B":
-				class = "channel-not-created/" + evk
-			case len(ob) < len(eb) && eb[len(eb)-1] == "X":
-				class = "channel-not-released/" + evk
-			case len(ob) > len(eb) && ob[len(ob)-1] == "X":
-				class = "unexpected-channel-released/" + evk
-			}
-			add("C44", class, "server S%d: expected transport Build/Close %v, saw %v (full log expected %v saw %v)", s, eb, ob, exp.Tlog[s], obs.Tlog[s])
-		} else if !c42EqStrs(en, on) {
-			// stream (re)establishment pacing is not part of C42-C44; a
-			// difference means the model's idea of when the client dials is off
-			add("ENGINE", "stream-attempts/"+evk, "server S%d: expected stream attempts %v, saw %v", s, en, on)
+	// one root cause usually shows as several symptoms in the same step: keep
+	// the first discrepancy per property (flow control, then requests, then
+	// callbacks, then channels), and a model-pacing complaint only if no
+	// property oracle fired.
+	// a message that was not read when due (or read early) makes every other
+	// expectation of this step moot: what the watchers and the requests show is
+	// a consequence, not a separate discrepancy
+	for _, f := range fails {
+		if f.Prop == "C42" && (strings.HasPrefix(f.Class, "read-stalled/") || strings.HasPrefix(f.Class, "read-before-onDone/")) {
+			fails = []c42Fail{f}
+			break
 		}
 	}
-	return fails, undetermined
+	for k := range fails {
+		// the multi-server scenarios serve C44 only: there the requests per
+		// server and the callbacks are judged as part of C44 ("subscriptions
+		// per server equal the watched set", "ignored updates produce no
+		// watcher callback")
+		if f := &fails[k]; f.Prop != "ENGINE" && !c42Has(sc.Props, f.Prop) {
+			f.Class = f.Prop + ":" + f.Class
+			f.Prop = sc.Props[0]
+		}
+	}
+	var out []c42Fail
+	seen := map[string]bool{}
+	for _, f := range fails {
+		if f.Prop == "ENGINE" || seen[f.Prop] {
+			continue
+		}
+		seen[f.Prop] = true
+		out = append(out, f)
+	}
+	if len(out) == 0 {
+		for _, f := range fails {
+			out = append(out, f)
+			break
+		}
+	}
+	return out, undetermined
+}
+
+// c42HasStale: does names contain a name that is in none of the admissible sets?
+func c42HasStale(names []string, sets [][]string) bool {
+	ok := map[string]bool{}
+	for _, s := range sets {
+		for _, n := range s {
+			ok[n] = true
+		}
+	}
+	for _, n := range names {
+		if !ok[n] {
+			return true
+		}
+	}
+	return false
 }
 
 // c42CbClass gives a short, value-free class of a callback mismatch.
@@ -457,6 +536,9 @@ func (x *c42Explorer) judged(prop string) bool {
 
 const c42ShardDepth = 3
 
+// C42_COUNT=1: development aid, only count the applicable histories (model only).
+var c42CountOnly = os.Getenv("C42_COUNT") != ""
+
 func (x *c42Explorer) dfs(m *c42Model, hist []c42Ev, d int) {
 	if x.r.OverBudget() {
 		return
@@ -482,11 +564,19 @@ func (x *c42Explorer) dfs(m *c42Model, hist []c42Ev, d int) {
 			x.stopped["model: "+m2.bad]++
 			continue
 		}
+		if x.sc.AvoidKnown && c42KnownDeviation(m2.exp.Feat) {
+			x.stopped["pruned: known deviation trigger"]++
+			continue
+		}
 		x.dfs(m2, append(hist[:len(hist):len(hist)], ev), d+1)
 	}
 }
 
 func (x *c42Explorer) leaf(hist []c42Ev) {
+	if c42CountOnly {
+		x.runs++
+		return
+	}
 	res := c42RunHistory(x.t, x.sc, hist, false)
 	x.runs++
 	if res.Stopped != "" {
@@ -515,6 +605,15 @@ func (x *c42Explorer) leaf(hist []c42Ev) {
 			}
 		}
 	}
+}
+
+func c42KnownDeviation(feat map[string]bool) bool {
+	for f := range feat {
+		if strings.HasPrefix(f, "dev:") {
+			return true
+		}
+	}
+	return false
 }
 
 func c42Nontrivial(prop string, feat map[string]bool) bool {
@@ -547,13 +646,6 @@ func (x *c42Explorer) report(hist []c42Ev, res c42Result) {
 		if f.Prop == "ENGINE" {
 			x.r.EngineError("%s %v step %d: %s: %s", x.sc.Name, c42Syms(hist[:res.FailAt+1]), res.FailAt, f.Class, f.Desc)
 			continue
-		}
-		if !x.judged(f.Prop) {
-			// this leg serves other properties: the multi-server scenarios judge
-			// requests and callbacks as part of C44 ("subscriptions per server
-			// equal the watched set", "no watcher callback for ignored updates")
-			f.Class = f.Prop + ":" + f.Class
-			f.Prop = x.sc.Props[0]
 		}
 		minHist, minFail := x.minimize(hist[:res.FailAt+1], f)
 		key := fmt.Sprintf("%s/%s/%s", x.sc.Name, f.Class, strings.Join(c42Syms(minHist), ","))
@@ -596,6 +688,9 @@ func (x *c42Explorer) minimize(fh []c42Ev, f c42Fail) ([]c42Ev, c42Fail) {
 				if len(h) == 0 {
 					return
 				}
+				if h[len(h)-1].K != fh[len(fh)-1].K {
+					return
+				}
 				if g, ok := same(h); ok {
 					best, bestF = append([]c42Ev(nil), h...), g
 				}
@@ -607,7 +702,7 @@ func (x *c42Explorer) minimize(fh []c42Ev, f c42Fail) ([]c42Ev, c42Fail) {
 				}
 				m2 := m.clone()
 				m2.apply(ev, len(h))
-				if m2.bad != "" {
+				if m2.bad != "" || (x.sc.AvoidKnown && c42KnownDeviation(m2.exp.Feat)) {
 					continue
 				}
 				rec(m2, append(h[:len(h):len(h)], ev), left-1)
@@ -753,7 +848,10 @@ func c42Leg(t *testing.T, leg string, props []string, pick func(*c42Scenario) bo
 				r.Cap(p, fmt.Sprintf("scenario %s: soft budget exhausted after %d histories", sc.Name, x.runs))
 			}
 		}
-		depths[sc.Name] = map[string]any{"depth": x.depth, "prefix": len(x.pre), "alphabet": len(x.alpha)}
+		if c42CountOnly {
+			fmt.Printf("[c42] count %s depth=%d histories=%d\n", sc.Name, x.depth, x.runs)
+		}
+		depths[sc.Name] = fmt.Sprintf("depth=%d after a fixed prefix of %d, alphabet=%d %v", x.depth, len(x.pre), len(x.alpha), sc.Alpha)
 		for _, p := range sc.Props {
 			if !c42Has(props, p) {
 				continue
@@ -761,7 +859,7 @@ func c42Leg(t *testing.T, leg string, props []string, pick func(*c42Scenario) bo
 			r.Eval(p, x.runs)
 			r.NontrivialN(p, x.nontriv[p])
 			r.AddInt(p, "histories/"+sc.Name, x.runs)
-			r.AddInt(p, "failing_histories", x.failing)
+			r.AddInt(p, "failing_histories_any_property", x.failing)
 			for k, n := range x.stopped {
 				r.AddInt(p, "histories_cut_short/"+k, n)
 			}
